@@ -198,13 +198,21 @@ class Prefixed(BaseModel):
     # def __get_validators__(cls):
     #     yield cls.validate
 
-    def canonical(self) -> Tuple[str, str]:
-        """The one spelling of our value: digits and prefix-name of its closest-prefix form.
-        Equal values spell alike, however they were written: `1000 * µ` and `1 * m` are `("1", "MILLI")`."""
+    def canonized(self) -> "Prefixed":
+        """The one spelling of our value: engineering notation, `1 <= abs(number) < 1000`
+        with a power-of-a-thousand prefix (as far as the prefixes reach).
+        Equal values spell alike, however they were written: `1000 * µ` becomes `1 * m`."""
         if self.number == 0:
-            return ("0", Prefix.UNIT.name)
-        scaled = self.scale()
-        return (format(scaled.number.normalize(), "f"), scaled.prefix.name)
+            return Prefixed.new(Decimal(0), Prefix.UNIT)
+        value = self.number.scaleb(self.prefix.value)  # Exact, in units
+        exp = 3 * (value.adjusted() // 3)  # Power of a thousand at or below its leading digit
+        exp = max(Prefix.YOCTO.value, min(Prefix.YOTTA.value, exp))
+        return Prefixed.new(value.scaleb(-exp).normalize(), Prefix.from_exp(exp))
+
+    def canonical(self) -> Tuple[str, str]:
+        """Digits and prefix-name of our canonical spelling. `1000 * µ` and `1 * m` are `("1", "MILLI")`."""
+        canon = self.canonized()
+        return (format(canon.number, "f"), canon.prefix.name)
 
     def __hash__(self):
         # Equal values hash alike. (Equality is by value, not by spelling.)
